@@ -146,13 +146,27 @@ fn gen_font(seed: u64) -> Vec<u8> {
     // file size: small (no pad), or steered around the 100 000-byte threshold
     let target: usize = match r.below(8) {
         0 => 0,
-        1 => 99_990 + r.below(9) as usize,
-        2 | 3 => 100_000 + r.below(4) as usize,
+        1 => 99_997 + r.below(3) as usize,
+        2 | 3 => 100_000 + r.below(3) as usize,
         _ => 100_004 + r.below(40_000) as usize,
     };
     let l0 = build_font(&f).len();
     if target > l0 + 24 {
         f.pad_table = (target - l0 - 16) & !3;
+        // residual 0..3 bytes: grow the last non-empty glyph (glyf is physically last)
+        let len = build_font(&f).len();
+        let diff = target.saturating_sub(len);
+        if diff > 0 && diff < 4 {
+            for g in f.glyphs.iter_mut().rev() {
+                match g {
+                    GenGlyph::Simple { pad, .. } | GenGlyph::Composite { pad, .. } => {
+                        *pad += diff;
+                        break;
+                    }
+                    GenGlyph::Empty => {}
+                }
+            }
+        }
     }
     f.truncate_glyf = truncate;
     build_font(&f)
@@ -499,6 +513,32 @@ fn gen(rng: &mut Rng, tier: Tier) -> Vec<Case> {
             let k = 1 + rng.below(5) as usize;
             let gids: Vec<u16> = (0..k).map(|_| rng.below(fi.ng as u64) as u16).collect();
             push(make_tg(&id, &gids), "gen-tt by-gids");
+        }
+        // damaged font (glyf cut short): request a character whose glyph lies beyond the file so
+        // that `renumber_and_build` fails and the unfiltered-cmap fallback is taken
+        if let Some(bytes) = font_bytes(&id) {
+            if let Ok(s) = Sfnt::parse(&bytes) {
+                let bad: Vec<u32> = fi
+                    .cmap
+                    .iter()
+                    .filter(|p| matches!(s.glyph_desc(p.1), GlyphDesc::Bad(_)))
+                    .map(|p| p.0)
+                    .collect();
+                if !bad.is_empty() {
+                    let mut used = vec![*rng.pick(&bad)];
+                    used.extend(pick_chars(rng, &fi, 1));
+                    used.sort();
+                    used.dedup();
+                    push(make_tt(&id, &used, true), "gen-tt damaged-glyph");
+                }
+            }
+        }
+        if fi.size >= 100_000 && rng.chance(1, 2) {
+            for want in [fi.ng as usize / 2, fi.ng as usize / 2 + 1] {
+                if let Some(used) = chars_for_closure(&fi, want, rng) {
+                    push(make_tt(&id, &used, true), "gen-tt ratio-boundary");
+                }
+            }
         }
     }
     cases
